@@ -1,6 +1,6 @@
 (* GoLRUProofs.v — the method bodies of LRUCache extracted from /repo compute the model's steps. *)
 From Coq Require Import String.
-From PGV Require Import Base.Bytes Base.MiniGo Spec.LRUSpec Model.LRU Model.GoLRU Extracted.SourceFns.
+From PGV Require Import Base.Bytes Base.MiniGo Spec.LRUSpec Model.LRU Model.GoLRU Extracted.SourceFnsLRU.
 From PGV Require Import Proofs.LRUProofs.
 Open Scope Z_scope.
 
